@@ -55,6 +55,16 @@ def _blocks(n, d, quick, rnd):
         bl.append(("first=%d" % a, [a] + [0] * (n - 1)))
         if n > 2:
             bl.append(("mid=%d" % a, [0] * (n // 2) + [a] + [0] * (n - n // 2 - 1)))
+    # contents on which a cheap integer test of the block coincides with "all zero": byte sum a multiple of 256, xor of all bytes
+    # zero, every byte equal, only the last / only the first byte non-zero with value 128 / 1
+    if n >= 2:
+        bl.append(("sum=256", [1, 255] + [0] * (n - 2)))
+        bl.append(("sum=512,spread", [(200 if i % 2 else 56) for i in range(n - n % 2)] + ([0] if n % 2 else [])))
+        bl.append(("xor=0", [0x5A, 0x5A] + [0] * (n - 2)))
+        bl.append(("xor=0,dense", [((i * 37 + 11) % 256) for i in range(n - 1)] + [__import__("functools").reduce(lambda a, b: a ^ b, [((i * 37 + 11) % 256) for i in range(n - 1)], 0)]))
+        r_ = [((i * 53 + 7) % 256) for i in range(n - 1)]
+        bl.append(("sum=0 mod 256,dense", r_ + [(-sum(r_)) % 256]))
+    bl.append(("all-equal", [0xA7] * n))
     bl.append(("zeros", [0] * n))
     bl.append(("ff", [255] * n))
     bl.append(("ramp", [(7 * i + 3) % 256 for i in range(n)]))
